@@ -197,10 +197,24 @@ PEAK32 = ["tp", "tp_discrete", "fp", "fp_discrete"]   # float32, depend on the s
 PEAKSHAPE = ["gamma", "gamma_raw"]
 
 
-def lib_stats(f, d, E):
+INPLACE_LABELS = {"-dd", "-33", "725.5"}   # these relabellings are applied in place on an object whose statistics were already used
+
+
+def lib_stats(f, d, E, inplace_from=None):
     common.load_wavespectra()
     N = E.shape[0]
-    sp = build(f, d, E).spec
+    if inplace_from is not None:
+        # the relabelling as an in-place coordinate assignment on the same object, after every statistic was evaluated once
+        da = build(f, inplace_from, E)
+        for name, fn in STATS:
+            try:
+                fn(da.spec).values
+            except Exception:  # noqa
+                pass
+        da["dir"] = np.asarray(d, dtype=float)
+        sp = da.spec
+    else:
+        sp = build(f, d, E).spec
     out = {}
     for name, fn in STATS:
         try:
@@ -515,7 +529,7 @@ def eval_group(f, d, E, ks, labels, bounds=True, twins=True, outcomes=None):
         assert ((d2 >= 0) & (d2 < 360)).all() and (d2.astype(np.float32) < 360).all(), d2
         shift = (d2 - d) % 360.0
         ascending = bool(np.all(np.diff(d2) > 0))
-        La = lib_stats(f, d2, E)
+        La = lib_stats(f, d2, E, inplace_from=d if label in INPLACE_LABELS else None)
         Ta = np_twins(f, d2, E, NTWIN) if twins else None
         F = Fails()
         check_relabel(L0, La, R0, shift, label, ascending, F, twins=(T0, Ta) if twins else None)
